@@ -209,6 +209,42 @@ func ruleElemAll(c *Ctx, r *Report) {
 			continue
 		}
 		info := f.Info()
+		// the comparison may sit in an unexported helper the loop body calls once per element: a
+		// call of such a helper counts as the check when the helper itself cannot reach a result
+		// other than `false` without executing the comparison.
+		direct := w.check
+		w.check = func(inf *types.Info, x ast.Node) bool {
+			if direct(inf, x) {
+				return true
+			}
+			call, ok := x.(*ast.CallExpr)
+			if !ok || inf != info {
+				return false
+			}
+			g := c.funcOfCallee(Callee(inf, call))
+			if g == nil || g == f || g.Decl.Body == nil || g.Obj.Pkg() != f.Obj.Pkg() || g.Obj.Exported() {
+				return false
+			}
+			ginfo := g.Info()
+			has := false
+			ast.Inspect(g.Decl.Body, func(m ast.Node) bool {
+				if m != nil && direct(ginfo, m) {
+					has = true
+				}
+				return !has
+			})
+			if !has {
+				return false
+			}
+			bypass, decided := c.FuncBypass(g, func(m ast.Node) bool { return direct(ginfo, m) }, func(rs *ast.ReturnStmt) bool {
+				if len(rs.Results) != 1 {
+					return false
+				}
+				tv, ok := ginfo.Types[rs.Results[0]]
+				return ok && tv.Value != nil && tv.Value.ExactString() == "false"
+			})
+			return decided && !bypass
+		}
 		// the element loop: the outermost loop of the function whose body contains a check node.
 		var loop ast.Stmt
 		ast.Inspect(f.Decl.Body, func(n ast.Node) bool {
@@ -575,6 +611,28 @@ func uniqueNameSource(c *Ctx, f *FuncInfo, e ast.Expr, loop ast.Node, depth int)
 					return "per-directory uniquified name map (ygen.GoFieldNameMap)"
 				}
 			}
+			// a local map every entry of which is a MakeNameUnique result (distinct keys of the
+			// map then hold distinct names as long as one set of used names was shared).
+			if rhs, _ := storesOf(f, info.ObjectOf(id)); len(rhs) > 0 {
+				var set types.Object
+				all := true
+				for _, r := range rhs {
+					call, ok := ast.Unparen(r).(*ast.CallExpr)
+					if !ok || FullName(Callee(info, call)) != P("genutil")+".MakeNameUnique" || len(call.Args) != 2 {
+						all = false
+						break
+					}
+					s := ObjOf(info, call.Args[1])
+					if s == nil || (set != nil && s != set) {
+						all = false
+						break
+					}
+					set = s
+				}
+				if all {
+					return "map of genutil.MakeNameUnique results over one set of used names"
+				}
+			}
 		}
 	case *ast.SelectorExpr:
 		// fieldDef.Name of another goStructField built in the same loop.
@@ -851,5 +909,125 @@ func ruleEmptyTreeAll(c *Ctx, r *Report) {
 		default:
 			r.OK(key, c.Pos(set.Pos()), "only shape and nil tests guard the creation")
 		}
+	}
+}
+
+// ---- R-KEYFIELD-NAME (C34, C26) ----------------------------------------------------------------
+
+// storesOf: the right-hand sides of every `m[…] = rhs` in f for the local map object m.
+func storesOf(f *FuncInfo, m types.Object) (rhs []ast.Expr, sites []*ast.AssignStmt) {
+	info := f.Info()
+	ast.Inspect(f.Decl.Body, func(n ast.Node) bool {
+		as, ok := n.(*ast.AssignStmt)
+		if !ok || len(as.Lhs) != len(as.Rhs) {
+			return true
+		}
+		for i, l := range as.Lhs {
+			if ix, ok := ast.Unparen(l).(*ast.IndexExpr); ok && ObjOf(info, ix.X) == m {
+				rhs = append(rhs, as.Rhs[i])
+				sites = append(sites, as)
+			}
+		}
+		return true
+	})
+	return
+}
+
+// entryFieldNaming decides whether the name expression e (the Name of a key goStructField) is the
+// name of the list entry's field that holds the key. Two forms are recognised:
+//   - ygen.GoFieldNameMap(dir)[key]: the very map the entry struct's fields are named from;
+//   - m[key] for a local map m filled with genutil.MakeNameUnique(…, set) inside a loop over
+//     dir.OrderedFieldNames() in which *every* iteration draws a name from the same set — the same
+//     uniquification, over the same fields in the same order, as ygen.GoFieldNameMap.
+func entryFieldNaming(c *Ctx, f *FuncInfo, e ast.Expr) (string, bool) {
+	info := f.Info()
+	ix, ok := ast.Unparen(e).(*ast.IndexExpr)
+	if !ok {
+		return "the key's name is " + types.ExprString(e) + ", not a lookup in the entry's field-name map", false
+	}
+	m := ObjOf(info, ix.X)
+	if m == nil {
+		return "the key's name is looked up in " + types.ExprString(ix.X) + ", which is not a local map", false
+	}
+	for _, d := range allDefs(f, m) {
+		if call, ok := ast.Unparen(d).(*ast.CallExpr); ok && FullName(Callee(info, call)) == P("ygen")+".GoFieldNameMap" {
+			return "ygen.GoFieldNameMap of the list entry", true
+		}
+	}
+	rhs, sites := storesOf(f, m)
+	if len(rhs) == 0 {
+		return "the map " + m.Name() + " the key's name is read from is never filled in this function", false
+	}
+	for i, r := range rhs {
+		call, ok := ast.Unparen(r).(*ast.CallExpr)
+		if !ok || FullName(Callee(info, call)) != P("genutil")+".MakeNameUnique" || len(call.Args) != 2 {
+			return m.Name() + " receives " + types.ExprString(r) + ", which is not a MakeNameUnique result", false
+		}
+		set := ObjOf(info, call.Args[1])
+		loop := c.EnclosingLoop(f, sites[i])
+		rs, isRange := loop.(*ast.RangeStmt)
+		if loop == nil || !isRange || set == nil {
+			return "the key names are not produced in a range loop with a local set of used names", false
+		}
+		over, ok := ast.Unparen(rs.X).(*ast.CallExpr)
+		if !ok || !strings.HasSuffix(FullName(Callee(info, over)), "ParsedDirectory.OrderedFieldNames") {
+			return "the key names are made unique in a loop over " + types.ExprString(rs.X) + ", not over all the entry's fields in the order ygen.GoFieldNameMap names them (OrderedFieldNames): a key can get the name of another field of the entry", false
+		}
+		bypass, _, decided := c.IterationBypass(f, rs, func(x ast.Node) bool {
+			cl, ok := x.(*ast.CallExpr)
+			return ok && FullName(Callee(info, cl)) == P("genutil")+".MakeNameUnique" && len(cl.Args) == 2 && ObjOf(info, cl.Args[1]) == set
+		})
+		if !decided {
+			return "loop blocks not identified", false
+		}
+		if bypass {
+			return "some field of the entry does not draw its name from " + set.Name() + " in the naming loop: the names of the keys can differ from the names ygen.GoFieldNameMap gives the entry's fields", false
+		}
+	}
+	return "MakeNameUnique over all the entry's fields in OrderedFieldNames order", true
+}
+
+// ruleKeyFieldName: the helper templates use a key's Name both as the helper's parameter and as the
+// selector of the entry's field (`FooBar: &FooBar`, `e.FooBar = &newK`). The entry's fields are
+// named by ygen.GoFieldNameMap (MakeNameUnique over all fields in alphabetical order); the key must
+// get that same name, otherwise a helper writes the key into a sibling field (or does not compile).
+func ruleKeyFieldName(c *Ctx, r *Report) {
+	r.Rule("R-KEYFIELD-NAME", "the Go name gogen gives a list key (helper parameter and selector of the entry's field in New/Append/Rename/GetOrCreate and the key struct) is the name ygen.GoFieldNameMap gives the entry's field holding that key: taken from that map, or produced by the same uniquification over all the entry's fields in the same order", 1)
+	f := c.MustFunc(r, "gogen", "yangListFieldToGoType")
+	if f == nil {
+		return
+	}
+	info := f.Info()
+	n := 0
+	ast.Inspect(f.Decl.Body, func(x ast.Node) bool {
+		cl, ok := x.(*ast.CompositeLit)
+		if !ok {
+			return true
+		}
+		tv, ok := info.Types[cl]
+		if !ok || tv.Type == nil {
+			return true
+		}
+		nt, ok := tv.Type.(*types.Named)
+		if !ok || nt.Obj().Name() != "goStructField" || c.EnclosingLoop(f, cl) == nil {
+			return true
+		}
+		for _, el := range cl.Elts {
+			kv, ok := el.(*ast.KeyValueExpr)
+			if !ok {
+				continue
+			}
+			if id, ok := kv.Key.(*ast.Ident); !ok || id.Name != "Name" {
+				continue
+			}
+			n++
+			why, good := entryFieldNaming(c, f, kv.Value)
+			r.Check(good, fmt.Sprintf("gogen.yangListFieldToGoType:key-field#%d:name", n), c.Pos(kv.Value.Pos()), why,
+				"yangListFieldToGoType: "+why+". The helper templates use the key's name to select the entry's field, so with two YANG names of the same CamelCase form (key foo_bar next to leaf foo-bar) New/Rename/Append write the key into the sibling field, or the package does not compile when the types differ")
+		}
+		return true
+	})
+	if n == 0 {
+		r.Bad("gogen.yangListFieldToGoType:key-field", c.Pos(f.Decl.Pos()), "no per-key goStructField is built in yangListFieldToGoType: the rule no longer recognises how keys are named")
 	}
 }
